@@ -2,6 +2,7 @@
 exclusively.  Presence and order of the protocol steps only (DESIGN §4 C08):
 each rule is a necessary condition - removing the step is a textbook lost
 wake-up - sufficiency over all interleavings is NOT decided."""
+import re
 from upv import facts
 from upv import pathrules as pr
 from upv.facts import strip, strip_all_casts, strip_expect, walk, const_of, path_of
@@ -281,6 +282,49 @@ def check_progress(rep, repo, tier):
     rep.extra_cov = {'states': tot['states'], 'transitions': tot['transitions']}
 
 
+
+# pipes whose hold list is working storage with a bound of its own, not a stall buffer (confirmed by reading)
+HOLD_WITHOUT_BLOCK = {
+    'upipe_disblo_input': 'upipe_discard_blocking: holds at most max_urefs buffers and drops the rest - never blocking is its purpose',
+    'upipe_even_sub_input': 'upipe_even: every buffer is held until the other inputs have caught up; upipe_even_process releases them as dates allow',
+    'upipe_trickp_sub_input': 'upipe_trickplay: the branch waiting for the first timestamps holds one buffer per subpipe until check_start; the pause branch blocks',
+    'upipe_ts_encaps_input': 'upipe_ts_encaps: the hold list is the multiplexing buffer, bounded by max_urefs * 2 a few lines below (excess is dropped)',
+}
+
+
+def check_backpressure(rep, repo, tier):
+    """the queue never holds more than its configured length: what does not fit is parked in the sink AND the pump that
+    brought it is blocked, so the producer stops"""
+    from rules import c04
+    from upv import pathrules as pr
+    rep.rule('R-backpressure', 'every function that parks an input buffer (X_hold_input) blocks the pump that delivered it (X_block_input) on every path before '
+             'it returns - upipe_qsink_input first of all: without it the sink keeps accepting buffers while the queue is full and queue + sink grow without '
+             'bound (21 of 25 such functions in the tree; the four that do not are listed with the bound they enforce themselves)')
+    prog = c04.load(tier, repo, Report(PROP, tier))
+    n = 0
+    seen_q = False
+    for uname, u in sorted(prog.units.items()):
+        for fn in sorted(u.funcs.values(), key=lambda f: f.name):
+            if not fn.blocks or not fn.inmain:
+                continue
+            if not any(x.get('k') == 'call' and re.search(r'_hold_input$', x.get('fn') or '') for _, _, x in fn.nodes()):
+                continue
+            n += 1
+            seen_q = seen_q or fn.name == 'upipe_qsink_input'
+            ev = pr.Events(fn)
+            bad = pr.must_follow(ev, pr.m_call(r'\w+_hold_input'), pr.m_call(r'\w+_block_input'))
+            if bad and fn.name in HOLD_WITHOUT_BLOCK:
+                rep.add('R-backpressure', fn.name, OOS, fn.loc, why='listed: ' + HOLD_WITHOUT_BLOCK[fn.name])
+            elif bad:
+                rep.add('R-backpressure', fn.name, VIOLATED, '%s:%s' % (fn.file, bad[0][2].get('l')),
+                        what='%s parks the buffer (line %s) and can return without blocking the pump that delivered it: the source keeps sending, the list of '
+                             'held buffers grows without bound' % (fn.name, bad[0][2].get('l')))
+            else:
+                rep.add('R-backpressure', fn.name, HOLDS, fn.loc)
+    if n < 10 or not seen_q:
+        raise facts.AnalysisBroken('R-backpressure: %d holding functions, upipe_qsink_input %sfound' % (n, '' if seen_q else 'not '))
+
+
 def run(tier='quick', repo=None):
     repo = repo or facts.REPO
     rep = Report(PROP, tier)
@@ -395,6 +439,7 @@ def run(tier='quick', repo=None):
     ob('udeal_start:registers-as-waiter-first', bool(ev.find(add_w)) and not pr.must_precede(ev, add_w, ind), fn,
        'udeal_start must register in waiters before trying the callback')
     check_progress(rep, repo, tier)
+    check_backpressure(rep, repo, tier)
     rep.assumptions = ['ueventfd_read / ueventfd_write reset / set the readiness of the descriptor',
                        'the interleaving argument (sufficiency of the protocol) is outside this family of technique']
     return rep
